@@ -183,7 +183,8 @@ Section Pipe.
     pi_commit : forall c, In c (all_comps p) -> cp_committed c = true ->
                 is_success (cp_res c) = true
                 /\ In (PRec (r_seq (cp_res c)) (r_id (cp_res c)) (tagof c) (ps_cmd (cp_item c))) (slog (p_store p));
-    pi_logtags : forall r, In r (slog (p_store p)) -> exists c, In c (all_comps p) /\ tagof c = pr_tag r;
+    pi_logtags : forall r, In r (slog (p_store p)) ->
+                 exists c, In c (all_comps p) /\ tagof c = pr_tag r /\ ps_cmd (cp_item c) = pr_cmd r;
     pi_buf : BufOK (p_ws p);
     pi_seqs : NoDup (eff_seqs p);
     pi_seqb : forall q, In q (eff_seqs p) -> ws_drain (p_ws p) <= q /\ q < ws_next (p_ws p);
@@ -407,10 +408,10 @@ Section Pipe.
     - intros r Hr. unfold p' in Hr. cbn [p_store] in Hr. rewrite X1 in Hr. apply in_app_iff in Hr.
       destruct Hr as [Hr|Hr].
       + destruct (I8 r Hr) as [c [C1 C2]]. exists c. split; [apply Hin; left; exact C1|exact C2].
-      + destruct (eo_from _ _ _ X2 r Hr) as [it [T1 [T2 _]]].
+      + destruct (eo_from _ _ _ X2 r Hr) as [it [T1 [T2 T3]]].
         apply (Permutation_in _ (Permutation_sym X4)) in T1. apply in_map_iff in T1.
         destruct T1 as [c [C1 C2]]. exists c. split; [apply Hin; right; exact C2|].
-        unfold tagof. rewrite C1. symmetry. exact T2.
+        unfold tagof. rewrite C1. split; symmetry; assumption.
     - exact I9.
     - apply (Permutation_NoDup (l := eff_seqs p)); [|exact I10].
       unfold eff_seqs, inflight_events, p'. cbn [p_running p_done p_ws].
@@ -746,7 +747,7 @@ Section Pipe.
         subst r0. apply (F c Hc0 Hs r R1 Hseq Htag).
       + rewrite X1 in Hr, HL'.
         eapply (eorigin_fresh St do_append hashf slog (slog (p_store p)) ext c At (lo_seqs _ HL')); eauto.
-        intros r0 Hr0 E0. destruct (pi_logtags _ I r0 Hr0) as [c0 [C1 C2]].
+        intros r0 Hr0 E0. destruct (pi_logtags _ I r0 Hr0) as [c0 [C1 [C2 _]]].
         apply (comp_not_queued p c0 (cp_item c) I C1).
         * rewrite Eq. apply in_or_app. right. apply in_or_app. left.
           apply (Permutation_in _ X4). apply in_map. exact Hc0.
